@@ -534,6 +534,9 @@ def random_keys(rng, nmax=40):
     nl = rng.choice([0, 1, 2, 3, 5, 8, 13, 21, nmax])
     nr = rng.choice([0, 1, 2, 3, 5, 8, 13, 21, nmax])
     nl, nr = rng.randint(0, nl), rng.randint(0, nr)
+    if rng.random() < 0.02:
+        # now and then one side (or both) is long, also much longer than the other (size-triggered strategies)
+        nl, nr = rng.choice([(70, 3), (3, 70), (130, 130), (1, 260), (260, 2), (65, 17)])
     lk, rk = [], []
     for _ in range(nk):
         for attempt in range(6):
